@@ -346,6 +346,8 @@ func Canon(v ssa.Value) string {
 		return "(" + Canon(x.X) + x.Op.String() + Canon(x.Y) + ")"
 	case *ssa.IndexAddr:
 		return "&" + Canon(x.X) + "[" + Canon(x.Index) + "]"
+	case *ssa.Lookup:
+		return Canon(x.X) + "[" + Canon(x.Index) + "]"
 	case *ssa.Extract:
 		return Canon(x.Tuple) + "#" + fmt.Sprint(x.Index)
 	case *ssa.Index:
